@@ -234,7 +234,7 @@ def k_selector(rng, nodes):
     return sel
 
 
-def k_gen(rng, T):
+def k_gen(rng, T, case_no=0):
     root = XNode('svg')
     nodes = [root]
     nel = 2 + rng.below(6)
@@ -297,6 +297,46 @@ def k_gen(rng, T):
                     + ([('id', 'u1')] if rng.below(2) else [])
                 u.target = tgt
                 nodes.append(u)
+    # a pile: 3-5 declarations of ONE property reaching ONE element from different sources (attribute, several CSS
+    # rules of differing specificity / sheet / order, style attribute), the pattern of !important flags cycling
+    # through all 2^k combinations with the case number
+    pile_rules = []
+    if case_no % 3 != 2:
+        n = rng.choice([m for m in nodes if m.tag not in ('use',)])
+        p = rng.choice(T.presentation)
+        bits = case_no // 3
+        names = [(k, v) for k, v in n.attrs if k.split(':')[-1] != p and k != 'style']
+        if not any(k == 'id' for k, _ in names):
+            ids += 1
+            names.append(('id', 'i%d' % ids))
+        if not any(k == 'class' for k, _ in names):
+            names.append(('class', 'pc'))
+        ident = [v for k, v in names if k == 'id'][0]
+        cls = [v for k, v in names if k == 'class'][0].split()[0]
+        vals = ['pa', 'pb', 'pc', 'pd', 'pe', 'pf', 'inherit']
+        rng.shuffle(vals)
+        k = 0
+        if rng.below(4) > 0:
+            names.append((p, vals[k]))
+            k += 1
+        n.style = [d for d in n.style if d[0] != p]
+        nsty = rng.choice([0, 1, 1, 2])
+        for _ in range(nsty):
+            n.style.insert(rng.below(len(n.style) + 1), (p, vals[k], bool((bits >> k) & 1)))
+            k += 1
+        sels = [[('', '*', [])], [('', n.tag, [])], [('', None, [('class', cls)])], [('', None, [('id', ident)])],
+                [('', n.tag, [('class', cls)])], [('', n.tag, [('id', ident)])]]
+        for _ in range(max(1, 3 - (1 if k == 0 else 0) + rng.below(2) - nsty + 1)):
+            if k >= len(vals):
+                break
+            other = k_decls(rng, T, 1)
+            ds = other + [(p, vals[k], bool((bits >> k) & 1))] if rng.below(2) else [(p, vals[k], bool((bits >> k) & 1))] + other
+            pile_rules.append(([rng.choice(sels)], ds))
+            k += 1
+        if n.style:
+            names.append(('style', decl_text(n.style)))
+        rng.shuffle(names)
+        n.attrs = names
     # style sheets
     sheets = []
     inj = None
@@ -310,6 +350,22 @@ def k_gen(rng, T):
                  for _ in range(1 + rng.below(4))]
         st.sheet = (typ, rules)
         sheets.append(st)
+    # distribute the pile's rules over the injected sheet and (new or existing) style elements, in random order
+    for r in pile_rules:
+        where = rng.below(3)
+        if where == 0:
+            inj = (inj or [])
+            inj.insert(rng.below(len(inj) + 1), r)
+        elif where == 1 and sheets:
+            st = rng.choice(sheets)
+            if st.sheet[0] in (None, 'text/css'):
+                st.sheet[1].insert(rng.below(len(st.sheet[1]) + 1), r)
+            else:
+                st.sheet = (None, st.sheet[1] + [r])
+        else:
+            st = XNode('style', root)
+            st.sheet = (rng.choice([None, 'text/css']), [r])
+            sheets.append(st)
     return root, inj
 
 
@@ -418,15 +474,15 @@ def impl_coq(elems, T):
 def run_cascade(ctx, binp, T, n_docs):
     rng = ctx.rng
     cases = []
-    for _ in range(n_docs):
-        root, inj = k_gen(rng, T)
+    for ci in range(n_docs):
+        root, inj = k_gen(rng, T, ci)
         cases.append((render_xml(root), inj, k_expected(root, inj, T)))
     outs = ctx.rvh_batch(binp, 'svgtree',
                          ["%s\t%s" % (('css=' + hexs(sheet_text(inj))) if inj else '-', doc) for doc, inj, _ in cases])
     coq_cases = []
     idx_map = []
     nviol = 0
-    stats = dict(elements=0, use=0, css_decls=0, inherit=0, important=0, injected=0)
+    stats = dict(elements=0, use=0, css_decls=0, inherit=0, important=0, injected=0, piles=0)
     for i, ((doc, inj, items), o) in enumerate(zip(cases, outs)):
         try:
             r = json.loads(o)
@@ -451,6 +507,7 @@ def run_cascade(ctx, binp, T, n_docs):
         stats['inherit'] += doc.count('inherit')
         stats['important'] += doc.count('!important')
         stats['injected'] += 1 if inj else 0
+        stats['piles'] += 1 if i % 3 != 2 else 0
         ctx.note_case('cascade/' + doc + (sheet_text(inj) if inj else ''),
                       nontrivial=any(it[4] or it[5] for it in items))
         coq_cases.append("(%s,\n  %s)" % (k_coq_items(items, T), impl_coq(elems, T)))
@@ -846,6 +903,10 @@ class Oracle:
                 w = ws[0]
                 if w['where'] == 'attr' and (w['imp'] or not self.attr_ok(p, w['v'])):
                     return False
+                if w['v'] == 'inherit' and w['imp'] and any(d is not w and self.rank(d) > self.rank(w) for d in ds):
+                    # same known class (inherit-copies-important): the copy takes the SOURCE's flag, so the declaration's
+                    # own !important is lost and a later plain declaration replaces it; dedicated scenario only
+                    return False
                 seen = set()
                 for d in ds:
                     key = (d['where'], d['sel'], d['sheet']) if d['where'] == 'css' else d['where']
@@ -975,6 +1036,46 @@ class Oracle:
             tag = 'shadow' + ('-inherit' if lo['v'] == 'inherit' else '')
         return tag
 
+    def rw_pile(self, root):
+        """3-5 declarations of one property on one element: the winner plus 2-4 losers on both sides of it in cascade
+        order (an !important winner in the middle of the cascade, or a plain winner on top)"""
+        rng = self.rng
+        cands = [(e, d) for e in els(root) for d in e.decls if d['role'] == 'win' and d['sel'] not in ('type', 'univ')
+                 and d['v'] != 'inherit' and sum(1 for x in e.decls if x['p'] == d['p']) == 1]
+        if not cands:
+            return None
+        e, w = rng.choice(cands)
+        p = w['p']
+        spots = [('attr', 'id', 'doc'), ('css', 'class', 'inj'), ('css', 'class', 'doc'), ('css', 'id', 'inj'),
+                 ('css', 'id', 'doc'), ('style', 'id', 'doc')]
+        others = [v for v in self.pool(p) if v != w['v']]
+        if not others:
+            return None
+        important = rng.below(3) > 0
+        if important:
+            wi = 1 + rng.below(4)                      # never the attribute, often in the middle
+        else:
+            wi = rng.choice([4, 5, 5])
+        w.update(where=spots[wi][0], sel=spots[wi][1], sheet=spots[wi][2], imp=important)
+        below = [i for i in range(len(spots)) if i < wi and (spots[i][0] != 'attr' or True)]
+        above = [i for i in range(len(spots)) if i > wi]
+        chosen = []
+        if below:
+            chosen.append(rng.choice(below))
+        if important and above:
+            chosen.append(rng.choice(above))
+        pool_ = [i for i in (below + (above if important else [])) if i not in chosen]
+        rng.shuffle(pool_)
+        chosen += pool_[:rng.below(3)]
+        for i in chosen:
+            v = rng.choice(others)
+            if spots[i][0] == 'attr' and not self.attr_ok(p, v):
+                continue
+            lo = self.new_decl(p, v, role='lose', cv=None)
+            lo.update(where=spots[i][0], sel=spots[i][1], sheet=spots[i][2])
+            e.decls.append(lo)
+        return 'pile-important' if important else 'pile'
+
     def rw_inherit(self, root):
         rng = self.rng
         want_source = rng.below(3) > 0
@@ -1090,7 +1191,7 @@ class Oracle:
         return 'attr-order'
 
     REWRITES = ['move-attr', 'move-style', 'move-css-id', 'move-css-class', 'move-css-type', 'important', 'css-univ',
-                'css-type-all', 'shadow', 'inherit', 'default', 'unit', 'notation', 'attr-order', 'injected', 'ignored-attr']
+                'css-type-all', 'shadow', 'inherit', 'default', 'unit', 'notation', 'attr-order', 'injected', 'ignored-attr', 'pile', 'pile']
 
     def apply(self, root, name, dpi):
         if name.startswith('move-'):
@@ -1111,6 +1212,8 @@ class Oracle:
             return self.rw_unit(root, dpi)
         if name == 'ignored-attr':
             return self.rw_ignored_attr(root)
+        if name == 'pile':
+            return self.rw_pile(root)
         if name == 'notation':
             return self.rw_notation(root)
         if name == 'attr-order':
@@ -1248,6 +1351,21 @@ def known_scenarios(orc, dpi):
     lo = orc.new_decl(p, 'inherit', role='lose', cv=None)
     p1.decls.append(lo)
     out.append(('inherit-copies-important', root, "%s: important on the ancestor, own CSS/style value %s, losing attribute %s=\"inherit\"" % (p, vb, p)))
+    # the same class the other way round: `p: inherit !important` takes the (plain) flag of its source and is then
+    # replaced by a later plain declaration
+    root = template()
+    g1, p1 = by_id(root, 'g1'), by_id(root, 'p1')
+    p = rng.choice(['fill', 'fill-rule', 'stroke-linejoin'])
+    va, vb = orc.pool(p)[0], orc.pool(p)[1]
+    g1.decls.append(orc.new_decl(p, va))
+    p1.decls.append(orc.new_decl('stroke', 'blue'))
+    w = orc.new_decl(p, 'inherit', cv=None)
+    w.update(where='css', sel='class', imp=True)
+    p1.decls.append(w)
+    lo = orc.new_decl(p, vb, role='lose', cv=None)
+    lo.update(where='style')
+    p1.decls.append(lo)
+    out.append(('inherit-copies-important', root, "%s: `inherit !important` by a CSS rule, then a plain style declaration %s" % (p, vb)))
     # inherit-relative-value: inherit of a context-dependent value
     root = template()
     g1, g2, t1, p1 = by_id(root, 'g1'), by_id(root, 'g2'), by_id(root, 't1'), by_id(root, 'p1')
@@ -1476,13 +1594,15 @@ def run(ctx):
                           dict(failed_files=res['failed'], audit=res['audit'], broken_ties=broken, table_theorem_fails_for=names,
                                log_tail=res['log'][-3000:]), found_input=False)
     ctx.cov['rule'] = (
-        "cascade: random documents of 3-9 elements (22 element kinds, text/tspan, one use expansion) with random attributes "
+        "cascade: random documents of 3-9 elements (22 element kinds, text/tspan, one use expansion; two thirds with a pile of 3-5 "
+        "declarations of one property on one element from attribute / 1-4 CSS rules of differing specificity, sheet and order / style, "
+        "all !important patterns) with random attributes "
         "(presentation, non-presentation, unknown, foreign namespace), style attributes and 0-3 style sheets + injected sheet with "
         "universal/type/id/class/compound/descendant/child selectors, `inherit` and !important; non-trivial = some CSS or style "
         "declaration applies.  find-attr: svg>g>g>path chains with 3 enumerated properties from attribute/CSS/style/inherit.  "
         "spelling: random base documents over all presentation properties (template with gradient, clipPath, mask, two filters, "
         "marker, shapes, text, image) x {move to attribute/style/CSS by id/class/type, !important, universal and type-wide rules, "
-        "injected sheet, shadowed lower-precedence declarations, explicit inherit (parent / ancestor / default), explicit default, "
+        "injected sheet, shadowed lower-precedence declarations, piles of 3-5 declarations around an (important) winner, explicit inherit (parent / ancestor / default), explicit default, "
         "equivalent units at dpi 72/96/300, colour and number notation, attribute order} singly and in random compositions of 2-6; "
         "distinct by document text.")
 
